@@ -389,7 +389,7 @@ Definition create_pool (s : gstate) (sender : acct) (ext : bool) (assets : list 
   match mint_shares s0 sender id init_shares with
   | Err e => Err e
   | Ok s1 =>
-    let s2 := with_rs s1 (mkState (pools (rs s1) ++ [(id, p)]) (bal (rs s1)) (taker_fee (rs s1)) (whitelisted (rs s1))) in
+    let s2 := with_rs s1 (mkState (pools (rs s1) ++ [(id, p)]) (bal (rs s1)) (taker_fee (rs s1)) (whitelisted (rs s1)) (skim (rs s1))) in
     match (if fee_exempt s sender then Ok (bal (rs s2)) else send_coins (bal (rs s2)) sender Community (creation_fee s)) with
     | Err e => Err e
     | Ok b1 =>
